@@ -11,6 +11,7 @@
 import GormModel.Lemmas.Upsert
 import GormModel.Model.UpsertClause
 import GormModel.Lemmas.UpsertKeys
+import GormModel.Lemmas.UpsertScan
 namespace Gorm
 open Gorm.Upsert
 
@@ -1299,5 +1300,202 @@ example : Tbl.wf c16KeysTbl ∧ hasZero ([1, 7] : List Nat) = false :=
   ⟨⟨by decide, by decide, by decide, trivial⟩, by decide⟩
 
 end Keys
+
+/-! ## Round 4 — "the first match" over a table that is not stored in key order; RETURNING rows and slice elements -/
+
+section ScanOrder
+open Gorm.UpsertK Gorm.UpsertScan
+
+/-- REGENERATED FACT: both lookups carry `Limit(1)` and `Order(<primary key>, ascending)` -/
+theorem C16_gen_lookup_ordered :
+    genLookupCfg "DB.FirstOrInit" = { limit1 := true, ordered := true } ∧
+    genLookupCfg "DB.FirstOrCreate" = { limit1 := true, ordered := true } := by
+  decide
+
+/-- "return the first match": with an ordered lookup the loaded row is a row of the table that passes the filter and
+    NO matching row has a smaller ORDER BY column — whatever order the rows are stored in -/
+theorem C16_lookup_least (cfg : LookupCfg) (ho : cfg.ordered = true) (st : MStmt) (q : List (Nat × Nat)) (t : Tbl) (r : KRow)
+    (h : lookupK cfg st q t = some r) :
+    r ∈ t ∧ (live st.unscoped r && holds q r) = true ∧
+    ∀ x ∈ t, (live st.unscoped x && holds q x) = true → k0 r ≤ k0 x := by
+  unfold lookupK at h
+  rw [if_pos ho] at h
+  have hm := mem_matching.mp (least_mem h)
+  exact ⟨hm.1, hm.2, fun x hx hp => least_le h x (mem_matching.mpr ⟨hx, hp⟩)⟩
+
+/-- a miss is a miss: the lookup finds nothing exactly when no row passes the filter -/
+theorem C16_lookup_none_iff (cfg : LookupCfg) (st : MStmt) (q : List (Nat × Nat)) (t : Tbl) :
+    lookupK cfg st q t = none ↔ ∀ x ∈ t, (live st.unscoped x && holds q x) = false := by
+  have key : lookupK cfg st q t = none ↔ matching st q t = [] := by
+    unfold lookupK
+    by_cases ho : cfg.ordered = true
+    · rw [if_pos ho]
+      constructor
+      · exact least_none
+      · intro h; rw [h]; rfl
+    · rw [if_neg ho]
+      cases hm : matching st q t <;> simp
+  rw [key]
+  unfold matching
+  rw [List.filter_eq_nil_iff]
+  constructor
+  · intro h x hx; cases hp : (live st.unscoped x && holds q x)
+    · rfl
+    · exact absurd hp (h x hx)
+  · intro h x hx; rw [h x hx]; simp
+
+/-- INSERTION ORDER IS IRRELEVANT: two tables holding the same rows in different storage order give lookups with the
+    same ORDER BY column; when the first key column identifies a row (single-column keys of a well-formed table) they
+    give the SAME row -/
+theorem C16_lookup_insertion_order_irrelevant (cfg : LookupCfg) (ho : cfg.ordered = true) (st : MStmt)
+    (q : List (Nat × Nat)) (t t' : Tbl) (hp : t.Perm t') (r : KRow) (h : lookupK cfg st q t = some r) :
+    ∃ r', lookupK cfg st q t' = some r' ∧ k0 r' = k0 r ∧
+      ((∀ x ∈ t, ∀ y ∈ t, k0 x = k0 y → x = y) → r' = r) := by
+  obtain ⟨hr, hpass, hmin⟩ := C16_lookup_least cfg ho st q t r h
+  have hr' : r ∈ matching st q t' := mem_matching.mpr ⟨hp.mem_iff.mp hr, hpass⟩
+  obtain ⟨r', hl⟩ := least_isSome_of_mem hr'
+  have hl' : lookupK cfg st q t' = some r' := by unfold lookupK; rw [if_pos ho]; exact hl
+  obtain ⟨hr2, hpass2, hmin2⟩ := C16_lookup_least cfg ho st q t' r' hl'
+  have e : k0 r' = k0 r :=
+    Nat.le_antisymm (hmin2 r (hp.mem_iff.mp hr) hpass) (hmin r' (hp.mem_iff.mpr hr2) hpass2)
+  exact ⟨r', hl', e, fun hinj => hinj r' (hp.mem_iff.mpr hr2) r hr e⟩
+
+/-- the glue to Model.UpsertKeys (whose `firstMatchK` reads the table in ORDER BY order): after bringing the looked-up
+    row to the front, `firstMatchK` finds exactly that row -/
+theorem C16_lookup_front (cfg : LookupCfg) (ho : cfg.ordered = true) (st : MStmt) (q : List (Nat × Nat)) (w : World) (r : KRow)
+    (h : lookupK cfg st q (w.tbl st.table) = some r) :
+    firstMatchK st q (w.set st.table (front (some r) (w.tbl st.table))) = some r := by
+  have hpass := (C16_lookup_least cfg ho st q _ r h).2.1
+  have hset : ∀ t, (w.set st.table t).tbl st.table = t := by
+    intro t; unfold World.set World.tbl; by_cases h0 : st.table = 0 <;> simp [h0]
+  unfold firstMatchK
+  rw [hset]
+  unfold front
+  simp only [List.find?_cons, hpass]
+
+/-- COUNTEREXAMPLE for a tree whose lookup drops `Order(primary key)`: rows stored as k3, k1 (both match): the lookup
+    returns k3 although k1 is the first match; the ordered lookup returns k1 for both storage orders -/
+theorem C16_lookup_unordered_counterexample :
+    let st : MStmt := { conds := [], unscoped := false, table := 0 }
+    let a : KRow := { key := [3], pay := [1, 1], del := false }
+    let b : KRow := { key := [1], pay := [1, 2], del := false }
+    lookupK { limit1 := true, ordered := false } st [(1, 1)] [a, b] = some a ∧
+    lookupK { limit1 := true, ordered := false } st [(1, 1)] [b, a] = some b ∧
+    lookupK (genLookupCfg "DB.FirstOrCreate") st [(1, 1)] [a, b] = some b ∧
+    lookupK (genLookupCfg "DB.FirstOrCreate") st [(1, 1)] [b, a] = some b := by
+  decide
+
+/-- REGENERATED FACT: callbacks/create.go switches `ScanOnConflictDoNothing` on at ONE site, under a condition that reads
+    `OnConflict.DoNothing` and nothing else; scan.go steps over an element only inside `update` ∧ that mode, for an
+    element with a non-zero RETURNING field, after `RowsAffected++` -/
+theorem C16_gen_scan_mode :
+    genScanCfg = { skipWhen := ["DoNothing"] } ∧
+    Gen.createSkipModeConds = ["onConflict.DoNothing"] ∧
+    Gen.scanSkipDef = "mode&ScanOnConflictDoNothing != 0" ∧ Gen.scanGotos = 1 ∧
+    Gen.scanSkipGuards = ["for initialized || rows.Next()", "if update", "if onConflictDonothing", "range fields",
+      "if _, ok := field.ValueOf(db.Statement.Context, elem); !ok"] ∧
+    Gen.scanSkipBefore = "db.RowsAffected++" := by
+  decide
+
+/-- plain mode, every element returns a row: ROW i GOES TO ELEMENT i -/
+theorem C16_scan_row_i_to_element_i : ∀ (es : List Elem), (∀ e ∈ es, e.ret.isSome = true) →
+    assign false es (rowsOf es) = es.map (·.ret)
+  | [], _ => rfl
+  | e :: es, h => by
+    have he := h e List.mem_cons_self
+    obtain ⟨r, hr⟩ := Option.isSome_iff_exists.mp he
+    have ih := C16_scan_row_i_to_element_i es (fun x hx => h x (List.mem_cons_of_mem _ hx))
+    rw [rowsOf_cons_some e es r hr]
+    simp [assign, ih, hr]
+
+/-- plain mode in general (the `_partial` theorem of finding F31: its hypothesis is the negation of the pattern):
+    when no rowless element is followed by an element with a row, every element receives its own row or none -/
+theorem C16_scan_plain_partial : ∀ (es : List Elem), rowlessSuffix es = true →
+    assign false es (rowsOf es) = es.map (·.ret)
+  | [], _ => rfl
+  | e :: es, h => by
+    unfold rowlessSuffix at h
+    cases hr : e.ret with
+    | some r =>
+      rw [hr] at h
+      simp only [Option.isSome_some, if_true] at h
+      rw [rowsOf_cons_some e es r hr]
+      simp [assign, C16_scan_plain_partial es h, hr]
+    | none =>
+      rw [hr] at h
+      simp only [Option.isSome_none, Bool.false_eq_true, if_false] at h
+      rw [rowsOf_cons_none e es hr, rowsOf_rowless es h]
+      simp only [List.map_cons, hr]
+      rw [map_ret_rowless es h]
+      simp [assign, assign_nil_rows]
+
+/-- skip mode (DO NOTHING) is right exactly as far as its heuristic is: when "holds a non-zero RETURNING value" coincides
+    with "has no row" for every element, each element receives its own row or none -/
+theorem C16_scan_skip_exact : ∀ (es : List Elem), (∀ e ∈ es, e.nz = e.ret.isNone) →
+    assign true es (rowsOf es) = es.map (·.ret)
+  | [], _ => rfl
+  | e :: es, h => by
+    have he := h e List.mem_cons_self
+    have ih := C16_scan_skip_exact es (fun x hx => h x (List.mem_cons_of_mem _ hx))
+    cases hr : e.ret with
+    | some r =>
+      rw [hr] at he
+      simp only [Option.isNone_some] at he
+      rw [rowsOf_cons_some e es r hr]
+      simp [assign, he, ih, hr]
+    | none =>
+      rw [hr] at he
+      simp only [Option.isNone_none] at he
+      rw [rowsOf_cons_none e es hr, assign_skip_cons e es _ he, ih]
+      simp [hr]
+
+/-- THE RETURNED RECORDS OF AN UPSERT: for every tree that switches the skip mode on for DoNothing only, under a rule
+    that is not DO NOTHING after gorm's expansion (UpdateAll / DoUpdates, Save of a slice) and stores every element
+    (no guard, or a guard that holds), element i carries row i afterwards — keyed and keyless elements in any order -/
+theorem C16_upsert_rows_go_to_their_elements (cfg : ScanCfg) (hc : cfg.skipWhen = ["DoNothing"]) (f : OCFlags)
+    (hf : f.doNothing = false) (es : List Elem) (hall : ∀ e ∈ es, e.ret.isSome = true) :
+    scanUpsert cfg f es = es.map (·.ret) := by
+  unfold scanUpsert skipMode
+  rw [hc]
+  simp only [List.any_cons, List.any_nil, Bool.or_false, OCFlags.get, hf]
+  exact C16_scan_row_i_to_element_i es hall
+
+/-- … and that is the current tree -/
+theorem C16_upsert_rows_current_tree (f : OCFlags) (hf : f.doNothing = false) (es : List Elem)
+    (hall : ∀ e ∈ es, e.ret.isSome = true) : scanUpsert genScanCfg f es = es.map (·.ret) :=
+  C16_upsert_rows_go_to_their_elements genScanCfg (by rw [C16_gen_scan_mode.1]) f hf es hall
+
+/-- COUNTEREXAMPLE for a tree that switches the skip mode on for UpdateAll as well: Save(&[]T{{ID: 1 (exists)}, {ID: 0}})
+    returns rows 1 and 2; the keyed element is stepped over and the NEW element receives the existing row's key -/
+theorem C16_scan_skip_under_update_all_counterexample :
+    let es : List Elem := [{ nz := true, ret := some 1 }, { nz := false, ret := some 2 }]
+    let f : OCFlags := { doNothing := false, updateAll := true, doUpdates := true, where_ := false }
+    scanUpsert { skipWhen := ["DoNothing", "UpdateAll"] } f es = [none, some 1] ∧
+    scanUpsert genScanCfg f es = [some 1, some 2] := by
+  decide
+
+/-- finding F31 (unchanged tree): a DO UPDATE guard that is false for the conflicting first element leaves it without a
+    row; the row of the second (new) element is scanned into the FIRST element, the new element gets nothing -/
+theorem C16_scan_guard_false_counterexample :
+    let es : List Elem := [{ nz := true, ret := none }, { nz := false, ret := some 2 }]
+    let f : OCFlags := { doNothing := false, updateAll := true, doUpdates := true, where_ := true }
+    rowlessSuffix es = false ∧ scanUpsert genScanCfg f es = [some 2, none] ∧ es.map (·.ret) = [none, some 2] := by
+  decide
+
+/-- (C03's finding F21 seen from here) DO NOTHING with a preset key that does NOT conflict: the heuristic takes it for a
+    conflicting element, its row goes to the next keyless element -/
+theorem C16_scan_do_nothing_preset_counterexample :
+    let es : List Elem := [{ nz := true, ret := some 7 }, { nz := false, ret := some 8 }]
+    let f : OCFlags := { doNothing := true, updateAll := false, doUpdates := false, where_ := false }
+    scanUpsert genScanCfg f es = [none, some 7] ∧ es.map (·.ret) = [some 7, some 8] := by
+  decide
+
+example : (∀ e ∈ ([{ nz := true, ret := some 1 }, { nz := false, ret := some 2 }] : List Elem), e.ret.isSome = true) ∧
+    rowlessSuffix [{ nz := false, ret := some 2 }, { nz := true, ret := none }] = true := by
+  constructor
+  · intro e he; simp at he; rcases he with rfl | rfl <;> rfl
+  · decide
+
+end ScanOrder
 
 end Gorm
